@@ -14,10 +14,14 @@ overflow, stack, memory, time) are only covered by the outcome search of checks/
   function contains (`C18_template_clean`, `C18_function_reject`, restated as `C01_lifting_input`);
 * the asserts of the dominator tree (`C15_no_panic`), the duplicate-declaration assert (`C10_injective`),
   the field arithmetic error cases (C16) are theorems of those properties;
+* the `assert!(visit_statement(..).is_empty())` of the `InitializationBlock` arm of CFG lifting cannot fire on an
+  initialization block of declarations and substitutions (`C01_init_block_assert`); the nine
+  `.expect("in control-flow graph")` of `cfg.rs` index existing blocks (`C01_cfg_indices`, from C12);
 * the loops that are fixpoints in the code have exits: the include work list (`C19_terminates`), the
   dominator iteration (`C15_terminates`); the model functions themselves are total by construction.
 -/
 import Circomspect.Lemmas.DesugarLemmas
+import Circomspect.Props.C12
 
 namespace Circomspect.C01
 open Circomspect Desugar
@@ -55,5 +59,39 @@ theorem C01_lifting_input (tbl : List TemplateSig) (body body' fbody : Stmt) :
     unfold sugarS at this
     simp only [Bool.or_eq_false_iff] at this
     exact ⟨this.1.1, this.1.2, this.2⟩
+
+/-- every child is a non-control statement (declarations and substitutions, as the grammar builds
+    initialization blocks) -/
+def AllSimple : CfgLift.Stmts → Prop
+  | .nil => True
+  | .cons (.simple _) rest => AllSimple rest
+  | .cons _ _ => False
+
+/-- the `assert!(visit_statement(..).is_empty())` of the `InitializationBlock` arm never fires on an
+    initialization block of declarations and substitutions: lifting it returns blocks and no pending exits -/
+theorem C01_init_block_assert : ∀ (cs : CfgLift.Stmts) (d : Nat) (bs : List CfgLift.Block), AllSimple cs →
+    ∃ bs', CfgLift.visitInit cs d bs = .ok bs' []
+  | .nil, d, bs, _ => ⟨bs, by rw [CfgLift.visitInit]⟩
+  | .cons (.simple loc) rest, d, bs, h => by
+    obtain ⟨bs', hb⟩ := C01_init_block_assert rest d (CfgLift.appendStmt bs (.simple loc)) (by simpa [AllSimple] using h)
+    exact ⟨bs', by rw [CfgLift.visitInit, CfgLift.visit]; simpa [CfgLift.Out.andThen] using hb⟩
+  | .cons (.init _) _, _, _, h => by simp [AllSimple] at h
+  | .cons (.block _) _, _, _, h => by simp [AllSimple] at h
+  | .cons (.ite _ _) _, _, _, h => by simp [AllSimple] at h
+  | .cons (.iteElse _ _ _) _, _, _, h => by simp [AllSimple] at h
+  | .cons (.while _ _) _, _, _, h => by simp [AllSimple] at h
+
+/-- `cfg.rs`, the `.expect("in control-flow graph")` sites: every block index stored in a successor or
+    predecessor set, and every target of a branch statement, is the index of an existing block -/
+theorem C01_cfg_indices (body : CfgLift.Stmt) (bs : List CfgLift.Block) (ps : List Nat) (h : CfgLift.lift body = .ok bs ps) :
+    ∀ (i : Nat) (b : CfgLift.Block), bs[i]? = some b →
+      (∀ j ∈ b.succs, j < bs.length) ∧ (∀ j ∈ b.preds, j < bs.length) ∧
+      (∀ l t f, b.stmts.getLast? = some (CfgLift.IStmt.branch l t f) → t < bs.length ∧ ∀ j, f = some j → j < bs.length) := by
+  intro i b hb
+  have hr := (C12.C12_shape body bs ps h).2.2.2.1 i b hb
+  refine ⟨hr.1, hr.2, ?_⟩
+  intro l t f hl
+  have := C12.C12_branch_targets body bs ps h i b hb l t f hl
+  exact ⟨this.1.2, fun j hj => (this.2 j hj).2⟩
 
 end Circomspect.C01
